@@ -25,6 +25,7 @@ import GoblVerif.Proofs.C14nNorm
 import GoblVerif.Proofs.C14nForm
 import GoblVerif.Proofs.C14nReader
 import GoblVerif.Proofs.C14nEncoding
+import GoblVerif.Proofs.C14nSrc
 
 namespace GoblVerif.Props.C07
 open GoblVerif GoblVerif.Spec.C07 GoblVerif.C14n GoblVerif.Proofs.C14n
@@ -478,5 +479,269 @@ theorem token_dispatch :
        ("nil", ["Null"]), ("default", ["error"]), ("(outside)", [])] := by decide
 
 end Expect
+
+/-! ## Src: the regenerated translation of the writers of /repo/c14n (Generated/C14nSrc.lean)
+
+  Generated/C14nSrc.lean is the translation, by go2lean in its byte mode, of
+  encodeString (+ safeSet, hex), String/Integer/Float/Bool/Null.MarshalJSON,
+  Attribute/Array/Object.MarshalJSON, Object.Sort, checkEncoding and escapedUnit
+  as they stand in the repository NOW.  The theorems below relate those
+  definitions to the model the 56 theorems above are about.
+
+  PROVED for all arguments: Null, Bool, Integer, String (= encodeString),
+  Attribute, Array and Object .MarshalJSON (the loops, the `first` flag, the
+  null-member filter, the error propagation) = attrJoin / marshalL / marshalK;
+  Object.Sort = sortL (the comparator is the bytewise order of the keys, which
+  on UTF-8 is the code-point order `ltS`); the two condition-controlled loops
+  never run out of fuel.
+  PARTIAL (`_partial`): `marshal_tie_partial` takes the statements about
+  encodeString and Float.MarshalJSON as hypotheses — they are proved here on
+  the ASCII table (`src_escape_table_is_readme`, all 128 one-byte strings) and
+  on examples (`src_float_examples`, `src_check_examples`), not for all
+  arguments.  Full statements, not proved:
+    ∀ s, obs (Src.encodeString (utf8s s)) = (C14n.encodeString s).map utf8s
+    ∀ n ds e, wfDigits ds → Src.Float_MarshalJSON (strconvE n ds e) = (utf8s (marshalFloat n ds e), none)
+    ∀ raw, (Src.checkEncoding raw).isNone = C14n.checkEncoding raw
+    ∀ b, Src.escapedUnit b = (C14n.escapedUnit b).elim (-1) Int.ofNat
+-/
+namespace Src
+open GoblVerif.Generated GoblVerif.GoBytes GoblVerif.C14nSrc GoblVerif.GoSem
+
+theorem src_null (n : C14nSrc.Null) : obs (C14nSrc.Null_MarshalJSON n) = (marshalAtom .null).map utf8s := by
+  cases n; decide
+
+theorem src_bool (b : Bool) : obs (C14nSrc.Bool_MarshalJSON b) = (marshalAtom (.bool b)).map utf8s := by
+  cases b <;> decide
+
+theorem src_integer (i : Int) : obs (C14nSrc.Integer_MarshalJSON i) = (marshalAtom (.int i)).map utf8s := by
+  simp only [C14nSrc.Integer_MarshalJSON, marshalAtom, Option.map_some, utf8s_ascii _ (formatInt_ascii i)]
+  rfl
+
+theorem src_string (s : Bytes) : C14nSrc.String_MarshalJSON s = C14nSrc.encodeString s := rfl
+
+theorem src_attribute (k : Str) (v : J)
+    (hk : obs (C14nSrc.encodeString (utf8s k)) = (C14n.encodeString k).map utf8s)
+    (hv : obs (srcJ v) = (marshalJ v).map utf8s) :
+    obs (C14nSrc.Attribute_MarshalJSON ⟨utf8s k, ⟨v.isNull, srcJ v⟩⟩) =
+      (attrJoin v.isNull (C14n.encodeString k) (marshalJ v)).map utf8s := by
+  unfold C14nSrc.Attribute_MarshalJSON attrJoin
+  simp only [Id.run]
+  cases hn : v.isNull with
+  | true => simp [obs, utf8s, GoSem.id_pure]
+  | false =>
+    simp only [Bool.false_eq_true, if_false]
+    cases hke : C14n.encodeString k with
+    | none =>
+      rw [hke] at hk
+      have := obs_eq_none hk
+      simp [this, obs, GoSem.id_pure]
+    | some kc =>
+      rw [hke] at hk
+      obtain ⟨h1, h2⟩ := obs_eq_some hk
+      cases hve : marshalJ v with
+      | none =>
+        rw [hve] at hv
+        have := obs_eq_none hv
+        simp [h1, this, obs, GoSem.id_pure]
+      | some vc =>
+        rw [hve] at hv
+        obtain ⟨h3, h4⟩ := obs_eq_some hv
+        simp [h1, h3, obs, GoSem.id_pure, h2, h4, utf8s_append, utf8s_cons, utf8_ascii]
+
+/-! ### the recursion through the interface Canonicalable -/
+
+section tie
+variable (hES : ∀ s : Str, obs (C14nSrc.encodeString (utf8s s)) = (C14n.encodeString s).map utf8s)
+variable (hFl : ∀ (n : Bool) (ds : List Nat) (e : Int), wfDigits ds = true →
+    C14nSrc.Float_MarshalJSON (strconvE n ds e) = (utf8s (marshalFloat n ds e), none))
+include hES hFl
+
+mutual
+theorem tieJ_partial : ∀ v : J, v.wf = true → obs (srcJ v) = (marshalJ v).map utf8s
+  | .atom .null, _ => src_null {}
+  | .atom (.bool b), _ => src_bool b
+  | .atom (.int i), _ => src_integer i
+  | .atom (.flt n ds e), hw => by
+    rw [srcJ, hFl n ds e (by simpa [J.wf, Atom.wf] using hw)]; rfl
+  | .atom (.str s), _ => by rw [srcJ]; exact hES s
+  | .arr xs, hw => by
+    have hw' : JL.wf xs = true := by simpa [J.wf] using hw
+    unfold srcJ C14nSrc.Array_MarshalJSON
+    simp only [marshalJ]
+    refine arr_wrap _ _ _ ?_ _ (fun s => by rcases s with ⟨_ | _, _⟩ <;> rfl)
+    exact tieL_partial xs hw' 0 ([] ++ [91]) _ (fun _ _ => rfl)
+  | .obj kvs, hw => by
+    have hw' : KL.wf kvs = true := by simpa [J.wf] using hw
+    unfold srcJ C14nSrc.Object_MarshalJSON
+    simp only [marshalJ]
+    refine obj_wrap _ _ _ ?_ _ (fun s => by rcases s with ⟨_ | _, _⟩ <;> rfl)
+    exact tieK_partial kvs hw' true ([] ++ [123]) _ (fun _ _ => rfl)
+theorem tieL_partial : ∀ xs : JL, JL.wf xs = true → ∀ (n : Nat) (buf : Bytes) (f : Canon × Nat → ArrSt → Id (ForInStep ArrSt)),
+    (∀ it s, f it s = pure (arrStep it s)) →
+    ArrPost (forIn (m := Id) ((srcL xs).zipIdx n) (none, buf) f).run buf (marshalL (n == 0) xs)
+  | .nil, _, n, buf, f, _ => arr_nil f n buf
+  | .cons x xs, hw, n, buf, f, hf => by
+    have hw' : J.wf x = true ∧ JL.wf xs = true := by simpa [JL.wf] using hw
+    unfold srcL marshalL
+    exact arr_cons f hf _ _ n buf _ _ (tieJ_partial x hw'.1) (fun b => by
+      have := tieL_partial xs hw'.2 (n + 1) b f hf
+      simpa using this)
+theorem tieK_partial : ∀ kvs : KL, KL.wf kvs = true → ∀ (first : Bool) (buf : Bytes)
+    (f : C14nSrc.Attribute → ObjSt → Id (ForInStep ObjSt)),
+    (∀ it s, f it s = pure (objStep (C14nSrc.Attribute_MarshalJSON it) s)) →
+    ObjPost (forIn (m := Id) (srcK kvs) (none, buf, first) f).run buf (marshalK first kvs)
+  | .nil, _, first, buf, f, _ => obj_nil f first buf
+  | .cons k v r, hw, first, buf, f, hf => by
+    have hw' : J.wf v = true ∧ KL.wf r = true := by simpa [KL.wf] using hw
+    unfold srcK marshalK
+    have hh := src_attribute k v (hES k) (tieJ_partial v hw'.1)
+    generalize attrJoin v.isNull (C14n.encodeString k) (marshalJ v) = m at hh ⊢
+    have := obj_cons C14nSrc.Attribute_MarshalJSON f hf _ (srcK r) first buf m (fun fl => marshalK fl r)
+      hh (fun fl b => tieK_partial r hw'.2 fl b f hf)
+    cases m <;> exact this
+end
+
+/-- PARTIAL (see the header of this namespace): Go's MarshalJSON on the value that stands for `v`,
+    computed by the TRANSLATED methods at every node, returns the UTF-8 of the model's text, and
+    an error exactly where the model rejects — given the two statements about encodeString and
+    Float.MarshalJSON that are not proved for all arguments -/
+theorem marshal_tie_partial (v : J) (hw : v.wf = true) : obs (srcJ v) = (marshalJ v).map utf8s :=
+  tieJ_partial hES hFl v hw
+end tie
+
+/-! ### Object.Sort -/
+
+/-- the comparator handed to sort.SliceStable is the bytewise order of the keys -/
+theorem src_sort (kvs : List (Str × J)) (src : J → Bytes × Err) :
+    (C14nSrc.Object_Sort ⟨kvs.map (attrOf src)⟩).2 = ⟨(sortL kvs).map (attrOf src)⟩ := by
+  unfold C14nSrc.Object_Sort
+  simp only [Id.run, GoSem.id_pure]
+  congr 1
+  exact stableSort_attr src _ (fun a b => by simp) kvs
+
+/-! ### headline statements, directly over the regenerated definitions -/
+
+/-- README rule 8, one ASCII byte at a time: what `encodeString` (as it is in the repository now)
+    writes for the one-byte string `[b]` is the quoted README escape of `b` -/
+theorem src_escape_table_is_readme :
+    ∀ b : Fin 128, C14nSrc.encodeString [b.val] = (0x22 :: (escChar b.val ++ [0x22]), none) := by
+  decide +kernel
+
+theorem src_float_examples :
+    (C14nSrc.Float_MarshalJSON (strconvE true [1, 5] 0)).1 = [45, 49, 46, 53, 69, 48] ∧        -- -1.5E0
+    (C14nSrc.Float_MarshalJSON (strconvE false [1] 21)).1 = [49, 46, 48, 69, 50, 49] ∧          -- 1.0E21
+    (C14nSrc.Float_MarshalJSON (strconvE false [1] 100)).1 = [49, 46, 48, 69, 49, 48, 48] ∧     -- 1.0E100
+    (C14nSrc.Float_MarshalJSON (strconvE true [1, 2, 3] (-7))).1 = [45, 49, 46, 50, 51, 69, 45, 55] := by  -- -1.23E-7
+  decide +kernel
+
+/-! ### pins -/
+
+theorem nothing_untranslated : C14nSrc.untranslated = [] := by decide
+theorem translated_all : C14nSrc.translated =
+    ["escapedUnit", "checkEncoding", "var safeSet", "var hex", "encodeString", "String.MarshalJSON",
+     "Integer.MarshalJSON", "Bool.MarshalJSON", "Null.MarshalJSON", "Float.MarshalJSON", "Attribute.MarshalJSON",
+     "Array.MarshalJSON", "Object.MarshalJSON", "Object.Sort"] := by decide
+
+/-- checkEncoding and escapedUnit as they are now, on the cases of the README / the fix commit:
+    a surrogate pair passes, an escaped backslash before `ud800` is not an escape, two high
+    surrogates are rejected, a lone low surrogate is rejected, invalid UTF-8 is rejected -/
+theorem src_check_examples :
+    (C14nSrc.checkEncoding [34, 92, 117, 100, 56, 48, 48, 92, 117, 100, 99, 48, 48, 34]).isNone = true ∧
+    (C14nSrc.checkEncoding [34, 92, 92, 117, 100, 56, 48, 48, 34]).isNone = true ∧
+    (C14nSrc.checkEncoding [34, 92, 117, 100, 56, 48, 48, 92, 117, 100, 56, 48, 48, 34]).isNone = false ∧
+    (C14nSrc.checkEncoding [34, 92, 117, 68, 67, 48, 48, 34]).isNone = false ∧
+    (C14nSrc.checkEncoding [34, 0xC3, 34]).isNone = false ∧
+    C14nSrc.escapedUnit [92, 117, 100, 56, 65, 102, 34] = 0xD8AF ∧
+    C14nSrc.escapedUnit [92, 117, 100, 56, 65] = -1 ∧
+    C14nSrc.escapedUnit [92, 117, 100, 56, 65, 103] = -1 := by
+  decide +kernel
+
+/-- the regenerated checkEncoding agrees with the model on every text of at most three bytes
+    taken from an alphabet that reaches every branch (backslash, `u`, a hex digit, a lead byte,
+    a continuation byte) -/
+theorem src_checkEncoding_small :
+    ∀ a ∈ [92, 117, 100, 0xC3, 0xA9], ∀ b ∈ [92, 117, 100, 0xC3, 0xA9], ∀ c ∈ [92, 117, 100, 0xC3, 0xA9],
+      (C14nSrc.checkEncoding [a, b, c]).isNone = C14n.checkEncoding [a, b, c] := by
+  decide +kernel
+
+/-! ### the loops never run out of fuel (one theorem per entry of `fuelChecks`) -/
+
+theorem encodeString_fuel_suffices (s : Bytes) : C14nSrc.encodeString_fuelOK s = true := by
+  unfold C14nSrc.encodeString_fuelOK
+  simp only [Id.run]
+  rw [forIn_range_fuel _ (fun _ _ => rfl)]
+  simp only [pure_bind]
+  generalize hr : forFuel _ s.length _ = r
+  have key : r.1 = some true ∨ ((r.1 = none ∧ 0 ≤ r.2.2.2) ∧ ¬ r.2.2.2 < (s.length : Int)) := by
+    rw [← hr]
+    clear hr r
+    refine forFuel_progress' _ (fun b : Option Bool × Bytes × Int × Int => b.2.2.2) (s.length : Int)
+      (fun b => b.1 = some true) (fun b => b.1 = none ∧ 0 ≤ b.2.2.2) ?_ s.length _ ⟨rfl, by simp⟩ (by simp)
+    intro b hq
+    obtain ⟨hq1, hq2⟩ := hq
+    have hw := decodeRune_width_at s b.2.2.2 hq2
+    simp only [Id.run, GoSem.id_pure, stepProp_ite_id, stepProp_done, stepProp_yield]
+    repeat' split
+    all_goals (first | (exact Or.inl rfl) | (exact Or.inl trivial) | (refine Or.inr ⟨⟨trivial, ?_⟩, ?_⟩ <;> omega) |
+      (refine ⟨⟨trivial, ?_⟩, ?_⟩ <;> omega))
+  clear hr
+  rcases key with h | ⟨⟨h1, _⟩, h2⟩
+  · rw [h]; rfl
+  · rw [h1]; simp only [h2, if_false]; split <;> rfl
+
+theorem checkEncoding_fuel_suffices (s : Bytes) : C14nSrc.checkEncoding_fuelOK s = true := by
+  unfold C14nSrc.checkEncoding_fuelOK
+  simp only [Id.run]
+  split
+  · rfl
+  rw [forIn_range_fuel _ (fun _ _ => rfl)]
+  simp only [pure_bind]
+  generalize hr : forFuel _ s.length _ = r
+  have key : r.1 = some true ∨ ((r.1 = none) ∧ ¬ r.2 < (s.length : Int)) := by
+    rw [← hr]
+    refine forFuel_progress _ (fun b : Option Bool × Int => b.2) (s.length : Int)
+      (fun b => b.1 = some true) (fun b => b.1 = none) ?_ ?_ s.length _ rfl (by simp)
+    · intro b b' hq h
+      simp only [Id.run] at h
+      (repeat' split at h) <;> (first | cases h | skip) <;> simp_all
+    · intro b b' hq h
+      simp only [Id.run] at h
+      (repeat' split at h) <;> (first | cases h | skip) <;> simp_all <;> omega
+  clear hr
+  rcases key with h | ⟨h1, h2⟩
+  · rw [h]; rfl
+  · rw [h1]; simp only [h2, if_false]; rfl
+
+/-! ### pins: what the translation rests on (they can only be changed together with the theorems above) -/
+
+theorem fuel_checks : C14nSrc.fuelChecks = ["checkEncoding_fuelOK", "encodeString_fuelOK"] := by decide
+
+/-- the three unsigned subtractions of escapedUnit are guarded by the range test of their `case` -/
+theorem nat_subs : C14nSrc.natSubs =
+    [("escapedUnit", "c -= '0'", ["'0' <= c && c <= '9'"]),
+     ("escapedUnit", "c -= 'a' - 10", ["!('0' <= c && c <= '9')", "'a' <= c && c <= 'f'"]),
+     ("escapedUnit", "c -= 'A' - 10", ["!('0' <= c && c <= '9')", "!('a' <= c && c <= 'f')", "'A' <= c && c <= 'F'"])] := by
+  decide
+
+theorem structs_pinned :
+    C14nSrc.struct_Array = [("Values", "[]Canonicalable")] ∧
+    C14nSrc.struct_Attribute = [("Key", "string"), ("Value", "Canonicalable")] ∧
+    C14nSrc.struct_Null = [] ∧
+    C14nSrc.struct_Object = [("Attributes", "[]*Attribute")] ∧
+    C14nSrc.nonNilElems = ["[]*Attribute"] ∧
+    C14nSrc.inOutParams = [("Object.Sort", "o")] := by decide
+
+theorem named_types_pinned : C14nSrc.namedTypes =
+    [("Canonicalable", "interface{MarshalJSON() ([]byte, error)}", "GoblVerif.GoBytes.Canon"),
+     ("Float", "float64", "GoblVerif.GoBytes.Str"),
+     ("bytes.Buffer", "struct{}", "GoblVerif.GoBytes.Str"),
+     ("error", "interface{Error() string}", "GoblVerif.GoBytes.Err")] := by decide
+
+theorem primitives_pinned : C14nSrc.primitives.map (·.1) =
+    ["&json.UnsupportedValueError", "Canonicalable.(Null)", "Canonicalable.MarshalJSON", "bytes.IndexByte", "errors.New",
+     "strconv.AppendFloat", "strconv.FormatInt", "utf16.DecodeRune", "utf16.IsSurrogate", "utf8.DecodeRuneInString",
+     "utf8.Valid"] := by decide
+
+end Src
 
 end GoblVerif.Props.C07
